@@ -7,6 +7,7 @@
 mod bridge;
 mod ctx;
 mod diag;
+mod khx;
 mod mon;
 mod oracle;
 mod trace;
@@ -56,6 +57,7 @@ fn main() {
 
     let mut c = Ctx::new(&prop, tier, seed, shard, nshards, budget);
     if let Some(k) = rk {
+        let rs = if rs == 0 { c.case_seed(&k, ri) } else { rs }; // replay by (seed, kind, idx) when no case seed is given
         c.replay = Some((k, ri, rs));
         c.shard = 0;
         c.nshards = 1;
